@@ -272,7 +272,7 @@ MUTATIONS += [
     dict(id="q-einsum-rewrite-names", file="cirkit/backend/torch/optimization/parameters.py", old="    del reduce_idx[reduce_dim]\n", new="    reduce_idx = reduce_idx[:reduce_dim] + reduce_idx[reduce_dim + 1 :]\n", expect={}, quiet=True),
     # ---- wave-2 rules
     dict(id="r4g-lookup-permute", file="cirkit/backend/torch/circuits.py", old="x = in_graph[..., layer.scope_idx].permute(1, 0, 2)", new="x = in_graph[..., layer.scope_idx].permute(0, 1, 2)", expect={"C01": ["R4g:cirkit.backend.torch.circuits.LayerAddressBook.lookup:input"]}),
-    dict(id="r4g-output-transpose", file="cirkit/backend/torch/circuits.py", old="        y = y.transpose(0, 1)  # (B, num_outputs, num_units)", new="        y = y.transpose(0, 2)  # (B, num_outputs, num_units)", expect={"C01": ["R4g:cirkit.backend.torch.circuits.TorchCircuit._evaluate_layers:outputs"]}),
+    dict(id="r4g-output-transpose", file="cirkit/backend/torch/circuits.py", old="        y = y.transpose(0, 1)  # (B, O, K)", new="        y = y.transpose(0, 2)  # (B, O, K)", expect={"C01": ["R4g:cirkit.backend.torch.circuits.TorchCircuit._evaluate_layers:outputs"]}),
     dict(id="r4l-sum-sample-layout", patch="seeded/C15a/patch.diff", expect={"C15": ["R4l:cirkit.backend.torch.layers.inner.TorchSumLayer:layout-sample"]}),
     dict(id="r5c-index-range", patch="seeded/C14b/patch.diff", expect={"C14": ["R5c:cirkit.backend.torch.parameters.nodes.TorchIndexParameter:buffer:_indices"]}),
     dict(id="r11d-global-max", patch="seeded/C12b/patch.diff", expect={"C12": ["R11d:cirkit.backend.torch.parameters.nodes.TorchSoftmaxParameter.forward"], "C01": ["R11d:"]}),
